@@ -73,6 +73,13 @@ SITES = [
     ("ident_schema", ["exppp"], lambda n: f"filename {n}", ("exppp_filename_buffer", "SCHEMAout")),
     ("many_enum_items", ["exp2cxx"], lambda n: f"desc {n} {len('item_') + len(str(n - 1)) + 2}", ("TypeBody_Description", "TypeDescription", "strcat_bounds")),
 ]
+# nesting depth: the resolver's counters (expression height = operators + leaf + the enclosing EXISTS() call of the shape)
+for _fam in ("deep_left_sum", "deep_right_sum", "deep_unary_not", "deep_funcall", "deep_and_chain"):
+    SITES.append((_fam, ALL, lambda n: f"nesting expression {n + 2}", ("EXP_resolve", "EXPresolve_op", "EXPR__out", "EXPRop")))
+for _fam in ("stmt_if", "stmt_begin", "stmt_repeat_while", "stmt_case"):
+    SITES.append((_fam, ALL, lambda n: f"nesting statement {n + 1}", ("STMTresolve", "STMTlist_resolve", "STMT_out", "python_indent")))
+SITES.append(("nested_aggr_type", ["check-express", "exppp", "exp2python"], lambda n: f"nesting type {n + 1}", ("TYPE_resolve",)))   # exp2cxx is quadratic in the nesting of aggregate types
+SITES.append(("stmt_if_else", ["exp2python"], lambda n: f"indent {n + 2}", ("python_indent", "tabs")))
 # identifiers by role through the generators: gate (reject above the limit), then the case-conversion loops
 for _tool in ("exp2cxx", "exp2python"):
     for _role, _fn in (("enum_item", "StrToLower"), ("attribute", "StrToLower"), ("select_type", "StrToLower"),
@@ -90,7 +97,7 @@ def caps_from_model(model):
 def boundary_ns(model, query, tier):
     """sizes around the first n where the model's outcome class changes, plus far-out sizes"""
     probe = sorted(set([1, 2, 5, 10, 15, 17, 18, 19, 20, 21, 25, 50, 100, 198, 199, 200, 201, 202, 239, 240, 241, 242, 250, 254, 255, 256, 257, 258,
-                        300, 400, 998, 999, 1000, 1001, 2000, 5000, 9990, 9996, 9997, 9998, 9999, 10000, 10001, 10002,
+                        300, 400, 998, 999, 1000, 1001, 2000, 4996, 4997, 4998, 4999, 5000, 5001, 5002, 6000, 9990, 9996, 9997, 9998, 9999, 10000, 10001, 10002,
                         10010, 12000, 20000] + ([100000] if tier == "thorough" else [30000])))
     reps = model.ask(*[query(n) for n in probe])
     cls = [mclass(r) for r in reps]
@@ -105,6 +112,10 @@ def boundary_ns(model, query, tier):
         chosen.update([239, 240, 241, 242] if ("casefn" in query(1) or "gatedfn" in query(1)) else [])
         chosen.update([995, 996, 1000] if "filename" in query(1) else [])
         chosen.update([500, 610, 700] if "desc" in query(1) else [])
+    if query(1).startswith("nesting") or query(1).startswith("indent"):
+        chosen.update([33, 34, 100] if query(1).startswith("indent") else [20000])
+        chosen.discard(probe[-1])
+        return sorted(x for x in chosen if x <= 20000)
     chosen.update([1000 if "pushes" in query(1) else 3000 if query(1).startswith("desc") else probe[-1]])
     return sorted(chosen)
 
@@ -120,6 +131,10 @@ def shape_inputs(tier):
             ns = [5, 19, 25] + deep
         elif fam in ("subtype_chain", "subtype_cycle"):
             ns = [1, 2, 3, 40, 300] if quick else [1, 2, 3, 40, 300, 1000]      # exp2cxx is quadratic in the chain length
+        elif fam.startswith("deep_"):
+            ns = [100, 20000] if quick else [100, 3000, 20000, 150000]
+        elif fam.startswith("bound_"):
+            ns = [100, 99999, 120000] if quick else [100, 4000, 60000, 99999, 100000, 120000, 250000]
         elif fam.startswith("stmt_"):
             ns = [10, 33, 40, 100] if quick else [10, 31, 32, 33, 34, 40, 100, 200]
         elif fam == "use_from_long":
@@ -147,6 +162,8 @@ def shape_inputs(tier):
     for tag, data in G.contradictions_with_uses():
         out.append((tag, data, None, None))
     for tag, data in G.alias_statements():
+        out.append((tag, data, None, None))
+    for tag, data in G.bound_kinds():
         out.append((tag, data, None, None))
     for n in ([1, 5, 6, 7] if quick else [1, 2, 5, 6, 7, 8, 20, 100]):
         for nested in (False, True):
@@ -368,7 +385,8 @@ THEOREM_SITE = {
     "C06_inheritance_terminates": ["subtype_cycle"], "C06_named_attribute_terminates": ["subtype_cycle"],
     "C06_no_overflow_non_unique_types": ["wide"], "C06_string_buffer_terminated": ["longexpr"],
     "C06_error_heap_bounded": ["errbuf"], "C06_error_heap_index": ["errbuf"],
-    "C06_select_qualifier_terminates": ["selectsearch"],
+    "C06_select_qualifier_terminates": ["selectsearch"], "C06_nesting_bounded": ["deep_left_sum", "stmt_if", "nested_aggr_type"],
+    "C06_nesting_limits_present": ["deep_left_sum", "stmt_if", "nested_aggr_type"], "C06_no_overread_python_indent": ["stmt_if_else"],
 }
 
 
@@ -433,7 +451,11 @@ def run(ctx):
                     disagreements.append((fam, n, t, pred, f"{r['cls']} {r['sig']}"))
                 elif pc == "reject" and r["cls"] not in ("reject",) + R.BAD:
                     disagreements.append((fam, n, t, pred, f"{r['cls']} rc={r['rc']}"))
-                elif pc == "reject" and r["cls"] == "reject" and "nested" in fam and "nested scopes" not in r["err"]:
+                elif pc == "reject" and r["cls"] == "reject" and pred == "reject" and query(1).startswith("nesting") and "levels of nesting" not in r["err"] + r["diag"]:
+                    disagreements.append((fam, n, t, pred, f"rejected without the nesting diagnostic: {r['diag'][:120]}"))
+                elif pc == "ok" and query(1).startswith("nesting") and r["cls"] == "reject":
+                    disagreements.append((fam, n, t, pred, f"rejected although the model accepts this depth: {r['diag'][:120]}"))
+                elif pc == "reject" and r["cls"] == "reject" and "nested" in fam and not query(1).startswith("nesting") and "nested scopes" not in r["err"]:
                     disagreements.append((fam, n, t, pred, f"rejected without the depth diagnostic: {r['diag'][:120]}"))
                 elif pc == "reject" and r["cls"] == "reject" and fam.startswith("ident_") and t != "exppp" and "characters long" not in r["err"]:
                     disagreements.append((fam, n, t, pred, f"rejected without the identifier-length diagnostic: {r['diag'][:120]}"))
@@ -642,6 +664,9 @@ def run(ctx):
         ships = [(f"shipped:{os.path.relpath(f, B.REPO)}", open(f, "rb").read(), None, None) for f in shipped_schemas()]
         run_.run(ships, timeout=600)
         ctx.cov["correspondence"]["shipped"] = {"inputs": len(ships), "wall_s": round(time.time() - t4, 1)}
+        # chains over DECLARATIONS (not nesting in the text): the recursions over supertypes are as deep as the chain is long
+        run_.run([("deepdecl:subtype_chain:150000", G.subtype_chain(150000), None, None)],
+                 tools_of=lambda tag, fam: ["check-express"], timeout=300)
 
     # 5. verdict: the oracle first (every misbehaviour is a failing input), then model/implementation disagreements
     distinct = report_bad(ctx, run_, tmo)
